@@ -1128,6 +1128,27 @@ func TestC11_ClientDecoders(t *testing.T) {
 		switch rapid.IntRange(0, 7).Draw(t, "what") {
 		case 6, 7:
 			c := c11cCase{Kind: "metarow", Cold: rapid.Bool().Draw(t, "cold"), CacheRegions: rapid.IntRange(0, 2).Draw(t, "cacheregions") == 0}
+			if rapid.IntRange(0, 5).Draw(t, "composite") == 0 {
+				// a whole-table lookup reads region infos that are sound but for a stop key that puts the end of
+				// the second region before its start; later answers give that region's range another name
+				c.Cold, c.CacheRegions = true, true
+				stop := evid.B(bytes.Repeat([]byte{rapid.SampledFrom([]byte{0, 'a', 'l'}).Draw(t, "cstopbyte")}, rapid.SampledFrom([]int{1, 2, 18, 40}).Draw(t, "cstoplen")))
+				if rapid.IntRange(0, 3).Draw(t, "cstopm") == 0 {
+					stop = evid.B("m")
+				}
+				c.Rows = append(c.Rows, c11MetaRow{HasStop: true, Stop: stop})
+				if rapid.Bool().Draw(t, "cnoserver") {
+					c.Rows = append(c.Rows, c11MetaRow{HasServer: true})
+				}
+				name := append(evid.B("t,m,"), rapid.SliceOfN(rapid.SampledFrom([]byte{'0', '1', '9', '.', 'x'}), 0, 4).Draw(t, "cname")...)
+				r := c11MetaRow{HasKey: true, RowKey: name}
+				if rapid.Bool().Draw(t, "cbadserver") {
+					r.HasServer, r.Server = true, evid.B("\x01:")
+				}
+				c.Rows = append(c.Rows, r)
+				c.Key2 = evid.B(rapid.SampledFrom([]string{"", "m,", "n"}).Draw(t, "ckey2"))
+				return c
+			}
 			n := rapid.IntRange(1, 3).Draw(t, "nrows")
 			for i := 0; i < n; i++ {
 				var r c11MetaRow
